@@ -96,6 +96,29 @@ pub fn gen(out: &mut Out, thorough: bool, seed: u64) {
             run(out, p, t);
         }
     }
+    // characters that are special to OTHER layers (percent escapes, query, fragment, dot segments, separators): here
+    // they are ordinary characters and match only themselves
+    let pats4 = all_strings(&['*', 'a', '%', '6', '1'], if thorough { 5 } else { 4 });
+    let texts4 = all_strings(&['a', '%', '6', '1'], if thorough { 6 } else { 5 });
+    for p in &pats4 {
+        for t in &texts4 {
+            run(out, p, t);
+        }
+    }
+    const OTHER: &[&str] = &["%2F", "%2f", "%20", "%25", "%", "%4", "%zz", "+", " ", "?", "#", "&", "=", ".", "..", "/", "//", "\\", ":", ";",
+                             "%C3%A9", "é", "%00", "\u{0}", "a", "b", "A", "~", "\t"];
+    for a in OTHER {
+        for b in OTHER {
+            for c in OTHER {
+                let t = format!("{}{}{}", a, b, c);
+                for p in [format!("{}{}{}", a, b, c), format!("{}*{}", a, c), format!("*{}", c), format!("{}*", a), format!("{}{}*", a, b),
+                          format!("/{}/*", a), format!("*{}*", b), a.to_string(), "*".to_string()] {
+                    run(out, &p, &t);
+                    run(out, &p, &format!("/{}/{}", a, c));
+                }
+            }
+        }
+    }
     // random long pairs biased towards self-overlapping literals
     let mut rng = Rng::new(seed);
     let n = if thorough { 3_000_000 } else { 100_000 };
